@@ -179,6 +179,24 @@ def explore(run, tier):
         rec = b'1240' + bm0([bit]) + b' ' * 30
         cases.append({'hex': (struct.pack('>I', len(rec)) + rec).hex(),
                       'expect': 'valid' if bit in configured else 'invalid', 'cls': f'bit {bit} without bit 1'})
+    # … and whatever the FIRST LENGTH says (0, a few bytes, 19, 20: less than a message type and two bitmaps): the 16 bitmap
+    # bytes are there and are inspected, primary and secondary half alike
+    for bit in range(2, 129):
+        for first in (0, 4, 12, 19, 20):
+            rec = b'1240' + bm([bit]) + b' ' * 30
+            cases.append({'hex': (struct.pack('>I', first) + rec).hex(),
+                          'expect': 'valid' if bit in configured else 'invalid', 'cls': f'bit {bit}, first length {first}'})
+    # binary bitmaps whose 16 bytes all happen to be HEXADECIMAL CHARACTERS (x'30'..x'39', x'41'..x'46', x'61'..x'66'),
+    # followed by more such characters: they are 16 bitmap bytes, not 32 characters of a hexadecimal bitmap
+    def bits_of(raw):
+        return [i + 1 for i in range(128) if raw[i // 8] >> (7 - i % 8) & 1]
+    for raw16 in (b'0' * 16, b'1' * 16, b'a' * 16, b'F' * 16, b'0123456789abcdef', b'DEADBEEFdeadbeef', b'8000000000000000',
+                  b'f' * 8 + b'0' * 8, b'C' + b'0' * 15, b'c2' + b'0' * 14):
+        for tail in (b'0' * 16 + b' ' * 30, b'ABCDEF0123456789' * 3, b'f' * 40):
+            rec = b'1240' + raw16 + tail
+            ok = all(bb in configured for bb in bits_of(raw16) if bb >= 2)
+            cases.append({'hex': (struct.pack('>I', len(rec)) + rec).hex(), 'expect': 'valid' if ok else 'invalid',
+                          'cls': 'bitmap bytes that are hex characters'})
     # inputs shorter than a length prefix, and up to the 24-byte minimum
     full = struct.pack('>I', len(base)) + base
     for n in range(0, 24):
